@@ -195,6 +195,15 @@ def run_path(task):
         except RecursionError:
             out["status"] = "unsupported"
             out["unsupported"].append({"msg": "interpreter recursion limit", "where": job["id"]})
+        except (TypeError, AttributeError, KeyError, IndexError, ValueError, NotImplementedError, ZeroDivisionError, z3.Z3Exception) as e:
+            # the symbolic models were handed a combination of values they do not cover (typically code that is NOT on the unchanged tree): this is
+            # a construct the engine cannot execute, i.e. undecided -- never a verdict, and not a reason to void the other harnesses of the check
+            tb = traceback.extract_tb(e.__traceback__)
+            inner = next((f"{os.path.basename(fr.filename)}:{fr.lineno}" for fr in reversed(tb) if "/pyvc/" in fr.filename), "")
+            where = (interp.call_stack[-1] if getattr(interp, "call_stack", None) else job["id"])
+            out["status"] = "unsupported"
+            out["unsupported"].append({"msg": f"no symbolic model for an operation on these values ({type(e).__name__}: {str(e)[:160]}) [{inner}]", "where": where,
+                                       "path": len(decisions)})
         for ob in run.obligations:
             d = ob.to_json()
             if task.get("keep_smt") and ob.smt2:
